@@ -101,6 +101,7 @@ pub struct Node<S: Storage> {
 
 /// Resets every thread-local seam; call at the start of each execution.
 pub fn reset_seams() {
+    crate::stores::clear_call_windows();
     datacake_rpc::verif::set_in_process(true);
     datacake_rpc::verif::reset();
     ec::clear_flush_gates();
